@@ -400,6 +400,40 @@ def _d5(chk, fb):
     chk.floor("D5", "members that unlink and link the same node", n, 2)
 
 
+def _d6(chk, fb):
+    """leaves-under: a member that recurses into every son of a node and otherwise records the node as a leaf decides on
+    'has no son'.  A test 'sons.size() > 1' (or '>= 2') sends a node with exactly one son to the leaf branch"""
+    import re
+    n = 0
+    for f in fb.concrete_fns():
+        if f.body is None or not f.relfile.endswith(("Graph/TreeGraphImpl.h", "Graph/DAGraphImpl.h")):
+            continue
+        rec = [c for c in f.calls() if c["callee"].get("key") == f.key]
+        if not rec:
+            continue
+        li = local_inits(f)
+        for iff in [x for x in f.all_nodes() if x["k"] == "IfStmt" and isinstance(x.get("cond"), int) and x["cond"] in f.nodes]:
+            if not any(f.contains(iff, c) for c in rec):
+                continue
+            pushes = [c for c in f.calls() if c["callee"]["name"] == "push_back" and f.contains(iff, c) and f.args(c) and strip(f.args(c)[0])["k"] == "DeclRefExpr" and strip(f.args(c)[0])["decl"]["kind"] == "param"]
+            if not pushes:
+                continue
+            ct = render(f.nodes[iff["cond"]], li).replace("this.", "")
+            if "Sons" not in ct and "Outgoing" not in ct and "sons" not in ct:
+                continue
+            n += 1
+            con = "leaf-means-no-son"
+            m = re.search(r"\.size\(\) (>=|>|!=|==) (\d+)\)?$", ct)
+            if re.search(r"\.empty\(\)", ct) or (m and ((m.group(1) == ">" and m.group(2) == "0") or (m.group(1) == ">=" and m.group(2) == "1") or (m.group(1) in ("!=", "==") and m.group(2) == "0"))):
+                chk.proved("D6", f.key, con, f.loc(iff), "the node is recorded as a leaf exactly when it has no son ('%s')" % ct[:80])
+            elif m and ((m.group(1) == ">" and int(m.group(2)) >= 1) or (m.group(1) == ">=" and int(m.group(2)) >= 2)):
+                chk.refuted("D6", f.key, con, f.loc(iff), "%s descends into the sons only when '%s': a node with exactly one son is recorded as a leaf and its subtree is never visited" % (f.name, ct[:80]),
+                            witness={"input": "the chain a -> b -> c: getLeavesUnderNode(b) returns {b}, the definition gives {c}"})
+            else:
+                chk.unknown("D6", f.key, con, f.loc(iff), "leaf test '%s' not read" % ct[:80])
+    chk.floor("D6", "recursive leaf collectors", n, 2)
+
+
 def run(chk, fb, tier):
     chk.rule("D1", "every dependency write of the cached validity predicate made by a public entry point (directly or in a callee) is followed by a reachable topologyHasChanged_(); "
                    "the derived invalidator overrides the base virtual and clears isValid_; isValid_ becomes true only from isTree()/isDA()")
@@ -411,6 +445,8 @@ def run(chk, fb, tier):
     _d3(chk, fb)
     chk.rule("D5", "a tree/DAG member that both unlinks and links relations of one node (setFather) removes the old relation before making the new one")
     _d5(chk, fb)
+    chk.rule("D6", "a recursive leaf collector records a node as a leaf exactly when it has no son")
+    _d6(chk, fb)
     if SKIPPED:
         chk.note("members of AssociationTreeGraphImplObserver not instantiable (latent compile errors in the header), skipped: %s" % SKIPPED)
     chk.assume("copy construction / assignment copy the flag together with the structure (implicit member-wise copy of TreeGraphImpl/DAGraphImpl)")
